@@ -21,6 +21,29 @@ Verdict(e) ==
        IF e.v_gots # DecPTS(e.bytes) THEN "pts-decode-gots"
        ELSE IF e.v_pes # DecPTS(e.bytes) THEN "pts-decode-pes"
        ELSE ""
+  ELSE IF e.op = "e2e_withpes" THEN
+       \* Create(pid, WithPUSI, WithPES(v)): payload 00 00 01 sid len len flags flags hlen PTS(5) ... at bytes 5.. of the packet
+       IF ~IsPtsValue(e.v) \/ Len(e.pkt) # 188 THEN "harness-bad-input"
+       ELSE IF ~IsEncPTS(SubSeq(e.pkt, 14, 18), e.v) THEN "e2e-pes-header-pts-bytes"
+       ELSE IF ~e.haspts \/ e.back # e.v THEN "e2e-pts-not-read-back-from-pes-header"
+       ELSE IF e.back_gots # e.v \/ e.back_pes # e.v THEN "e2e-pts-round-trip"
+       ELSE ""
+  ELSE IF e.op = "e2e_pes" THEN
+       IF ~IsPtsValue(e.v) \/ ~IsPtsValue(e.w) THEN "harness-bad-input"
+       ELSE IF ~IsEncPTS(SubSeq(e.bytes, 10, 14), e.v) \/ ~IsEncPTS(SubSeq(e.bytes, 15, 19), e.w) THEN "pts-bytes"
+       ELSE IF ~e.haspts \/ e.pts # e.v THEN "e2e-pts-not-read-back-from-pes-header"
+       ELSE IF ~e.hasdts \/ e.dts # e.w THEN "e2e-dts-not-read-back-from-pes-header"
+       ELSE ""
+  ELSE IF e.op = "e2e_pcr" THEN
+       LET hasP == e.which # "opcr"
+           hasO == e.which # "pcr"
+           offO == IF hasP THEN 13 ELSE 7
+       IN IF ~IsPcrValue(e.v) \/ ~IsPcrValue(e.w) \/ Len(e.pkt) # 188 THEN "harness-bad-input"
+          ELSE IF hasP /\ SubSeq(e.pkt, 7, 12) # EncPCR(e.v) THEN "e2e-pcr-bytes-in-adaptation-field"
+          ELSE IF hasO /\ SubSeq(e.pkt, offO, offO + 5) # EncPCR(e.w) THEN "e2e-opcr-bytes-in-adaptation-field"
+          ELSE IF hasP /\ (e.pcr_err \/ e.pcr # e.v \/ e.f_pcr # e.v) THEN "e2e-pcr-not-read-back"
+          ELSE IF hasO /\ (e.opcr_err \/ e.opcr # e.w \/ e.f_opcr # e.w) THEN "e2e-opcr-not-read-back"
+          ELSE ""
   ELSE "harness-unknown-op"
 Init == l = 1
 Next == /\ l <= Len(Trace) /\ l' = l + 1
